@@ -13,6 +13,8 @@
 //	                    and query goroutines
 //	history_test.go     part (b): sequential rapid state machine with flush cycles, creators and
 //	                    queries nested at the file-system seams inside flushes, reopen and crash images
+//	compact_test.go     part (b): per-case name universes (names of mixed length / common prefixes),
+//	                    compaction of the dictionary / index kv families as a history operation
 //	regression_test.go  plain reproductions of the defects found
 package c09
 
